@@ -4,6 +4,7 @@ import SmppVerif.Model.Wire
 import SmppVerif.Model.Keeper
 import SmppVerif.Model.Supervisor
 import SmppVerif.Model.Receiver
+import SmppVerif.Model.Sender
 import SmppVerif.Model.DriverPdu
 
 namespace SmppVerif.DriverSession
@@ -35,6 +36,14 @@ def showEv : Supervisor.Ev → String
 
 def step (ws : List String) : Option String :=
   match ws with
+  | "tx" :: dflt :: ref :: seq :: "submit" :: rest =>
+    match DriverPdu.parseEnc dflt, ref.toNat?, seq.toInt?, DriverPdu.parseSm rest with
+    | some d, some ref, some seq, some m =>
+      some (match Sender.iteration d ref seq m with
+        | .sent ps => "sent " ++ (if ps.isEmpty then "-" else ";".intercalate (ps.map showHex))
+        | .failed ps e => "failed " ++ (if ps.isEmpty then "-" else ";".intercalate (ps.map showHex)) ++ " " ++ e.name
+            ++ (if Sender.survives (.failed ps e) then " continues" else " ends"))
+    | _, _, _, _ => some "bad-op"
   | ["rx", dflt, hex] =>
     match DriverPdu.parseEnc dflt, parseHex hex with
     | some d, some b =>
